@@ -3,13 +3,55 @@ Local Open Scope list_scope.
 
 (* ---------------- gorilla: whole-segment templates ---------------- *)
 Fixpoint vars_of (t : list seg) : list string :=
-  match t with [] => [] | SLit _ :: r => vars_of r | SVar n :: r => n :: vars_of r end.
+  match t with [] => [] | SLit _ :: r => vars_of r | SVar n :: r => n :: vars_of r | SMix _ n _ :: r => n :: vars_of r end.
 Fixpoint fill (t : list seg) (m : list (string * string)) : option (list string) :=
   match t with
   | [] => Some []
   | SLit l :: r => option_map (cons l) (fill r m)
   | SVar n :: r => match assoc n m, fill r m with Some v, Some rest => Some (v :: rest) | _, _ => None end
+  | SMix pre n suf :: r => match assoc n m, fill r m with Some v, Some rest => Some ((pre ++ v ++ suf)%string :: rest) | _, _ => None end
   end.
+
+(* ---- string lemmas ---- *)
+Lemma take_drop k : forall s, s = (take k s ++ drop k s)%string.
+Proof. induction k as [|k IH]; intros [|c s]; simpl; try reflexivity. now rewrite <- IH. Qed.
+Lemma take_app_length a : forall b, take (String.length a) (a ++ b) = a.
+Proof. induction a as [|c a IH]; intros b; simpl; [destruct b; reflexivity|]. now rewrite IH. Qed.
+Lemma drop_app_length a : forall b, drop (String.length a) (a ++ b) = b.
+Proof. induction a as [|c a IH]; intros b; simpl; [destruct b; reflexivity|]. apply IH. Qed.
+Lemma length_app_str a b : String.length (a ++ b) = String.length a + String.length b.
+Proof. induction a; simpl; auto. Qed.
+Lemma prefix_drop p : forall s, String.prefix p s = true -> s = (p ++ drop (String.length p) s)%string.
+Proof.
+  induction p as [|c p IH]; intros s H; [destruct s; reflexivity|].
+  destruct s as [|d s]; [discriminate|]. cbn [String.prefix] in H.
+  destruct (ascii_dec c d) as [<-|]; [|discriminate]. simpl. now rewrite <- (IH s H).
+Qed.
+Lemma prefix_app p : forall s, String.prefix p (p ++ s) = true.
+Proof.
+  induction p as [|c p IH]; intros s; [destruct s; reflexivity|]. cbn [append String.prefix].
+  destruct (ascii_dec c c) as [_|n]; [apply IH|now elim n].
+Qed.
+
+Lemma strip_affixes_sound pre suf x v : strip_affixes pre suf x = Some v -> x = (pre ++ v ++ suf)%string /\ v <> ""%string.
+Proof.
+  unfold strip_affixes. destruct (String.prefix pre x) eqn:Ep; [|discriminate].
+  set (y := drop (String.length pre) x). set (k := String.length y - String.length suf).
+  destruct (Nat.ltb (String.length suf) (String.length y)) eqn:El; [|discriminate].
+  destruct (String.eqb_spec (drop k y) suf) as [Es|]; [|discriminate]. cbn [andb].
+  intros H; inversion H; subst v. apply Nat.ltb_lt in El. split.
+  - rewrite (prefix_drop pre x Ep) at 1. fold y. f_equal. transitivity (take k y ++ drop k y)%string; [apply take_drop|now rewrite Es].
+  - intros E. assert (Hl : String.length y = String.length (take k y ++ drop k y)) by now rewrite <- take_drop.
+    rewrite E, Es in Hl. simpl in Hl. lia.
+Qed.
+Lemma strip_affixes_complete pre suf v : v <> ""%string -> strip_affixes pre suf (pre ++ v ++ suf) = Some v.
+Proof.
+  intros Hv. unfold strip_affixes. rewrite prefix_app, drop_app_length.
+  rewrite length_app_str. replace (String.length v + String.length suf - String.length suf) with (String.length v) by lia.
+  rewrite drop_app_length, take_app_length, String.eqb_refl.
+  destruct v as [|c v]; [congruence|]. simpl.
+  destruct (Nat.ltb_spec (String.length suf) (S (String.length v + String.length suf))) as [_|H]; [reflexivity|lia].
+Qed.
 
 Lemma assoc_upd_same {A} k (v : A) l : assoc k (upd k v l) = Some v.
 Proof.
@@ -28,8 +70,9 @@ Qed.
 
 Lemma fill_upd_fresh t n x m : ~ In n (vars_of t) -> fill t (upd n x m) = fill t m.
 Proof.
-  induction t as [|[l|v] t IH]; intros H; cbn [fill vars_of] in *; [reflexivity| |].
+  induction t as [|[l|v|pre v suf] t IH]; intros H; cbn [fill vars_of] in *; [reflexivity| | |].
   - now rewrite IH.
+  - rewrite assoc_upd_other by (intros ->; apply H; now left). rewrite IH by (intros Hi; apply H; now right). reflexivity.
   - rewrite assoc_upd_other by (intros ->; apply H; now left). rewrite IH by (intros Hi; apply H; now right). reflexivity.
 Qed.
 
@@ -37,13 +80,18 @@ Qed.
 Theorem segs_match_sound t : forall p m,
   NoDup (vars_of t) -> segs_match t p = Some m -> fill t m = Some p.
 Proof.
-  induction t as [|[l|n] t IH]; intros p m Hnd H; destruct p as [|x p]; cbn in H; try discriminate.
+  induction t as [|[l|n|pre n suf] t IH]; intros p m Hnd H; destruct p as [|x p]; cbn [segs_match] in H; try discriminate.
   - now injection H as <-.
   - destruct (String.eqb_spec l x) as [->|]; [|discriminate]. cbn. now rewrite (IH p m Hnd H).
   - destruct (String.eqb x ""); [discriminate|].
     destruct (segs_match t p) as [m'|] eqn:E; [|discriminate]. injection H as <-.
     cbn [vars_of] in Hnd. inversion Hnd as [|? ? Hfresh Hnd']; subst.
     cbn [fill]. rewrite assoc_upd_same, fill_upd_fresh by exact Hfresh. now rewrite (IH p m' Hnd' E).
+  - destruct (strip_affixes pre suf x) as [v|] eqn:Ev; [|discriminate].
+    destruct (segs_match t p) as [m'|] eqn:E; [|discriminate]. injection H as <-.
+    cbn [vars_of] in Hnd. inversion Hnd as [|? ? Hfresh Hnd']; subst.
+    cbn [fill]. rewrite assoc_upd_same, fill_upd_fresh by exact Hfresh. rewrite (IH p m' Hnd' E).
+    now rewrite (proj1 (strip_affixes_sound _ _ _ _ Ev)).
 Qed.
 
 (* completeness: a path obtained by filling the template with non-empty values is matched *)
@@ -51,7 +99,7 @@ Theorem segs_match_complete t : forall m p,
   fill t m = Some p -> (forall n v, In n (vars_of t) -> assoc n m = Some v -> v <> ""%string) ->
   exists m', segs_match t p = Some m'.
 Proof.
-  induction t as [|[l|n] t IH]; intros m p H Hne; cbn in H.
+  induction t as [|[l|n|pre n suf] t IH]; intros m p H Hne; cbn in H.
   - injection H as <-. now exists [].
   - destruct (fill t m) as [rest|] eqn:E; [|discriminate]. injection H as <-.
     destruct (IH m rest E) as [m' Hm']. { intros n v Hn. apply Hne. exact Hn. }
@@ -60,6 +108,10 @@ Proof.
     destruct (fill t m) as [rest|] eqn:E; [|discriminate]. injection H as <-.
     destruct (IH m rest E) as [m' Hm']. { intros n' v' Hn. apply Hne. now right. }
     exists (upd n v m'). cbn. rewrite (eqb_false_of_ne v) by (apply (Hne n v); [now left|exact Ev]). now rewrite Hm'.
+  - destruct (assoc n m) as [v|] eqn:Ev; [|discriminate].
+    destruct (fill t m) as [rest|] eqn:E; [|discriminate]. injection H as <-.
+    destruct (IH m rest E) as [m' Hm']. { intros n' v' Hn. apply Hne. now right. }
+    exists (upd n v m'). cbn [segs_match]. rewrite strip_affixes_complete by (apply (Hne n v); [now left|exact Ev]). now rewrite Hm'.
 Qed.
 
 (* the search: found routes are declared for the method and match; not-found means no template matches *)
@@ -121,12 +173,6 @@ Inductive spells : list tok -> string -> list string -> Prop :=
 | sp_var r seg rest vs : cut_seg (seg ++ rest) = (seg, rest) -> spells r rest vs -> spells (TV :: r) (seg ++ rest) (seg :: vs)
 | sp_every rem : spells [TE] rem [rem].
 
-Lemma prefix_drop p : forall s, String.prefix p s = true -> s = (p ++ drop (String.length p) s)%string.
-Proof.
-  induction p as [|c p IH]; intros s H; [reflexivity|].
-  destruct s as [|d s]; cbn in H; [discriminate|].
-  destruct (ascii_dec c d) as [->|]; [|discriminate]. cbn. f_equal. now apply IH.
-Qed.
 Lemma cut_seg_app s : forall a b, cut_seg s = (a, b) -> s = (a ++ b)%string.
 Proof.
   induction s as [|c s IH]; intros a b H; cbn in H.
